@@ -1295,6 +1295,9 @@ func preprocessStylesheetImports(deviceMediaType, baseUrl string, stylesheetRule
 
 			if len(allDeclarations) > 0 {
 				for _, item := range allDeclarations {
+					// the error is local to this rule : the following
+					// (nested) rules are not concerned
+					var err error
 					for _, sel := range item.Selector {
 						if _, in := pseudoElements[sel.PseudoElement()]; !in {
 							err = fmt.Errorf("unsupported pseudo-element : %s", sel.PseudoElement())
